@@ -13,6 +13,9 @@ pub struct Module {
     pub ts: bool,
     /// the module's own configuration (config.json / <name>.json), if any
     pub own: Option<String>,
+    /// `<name>.only-own` exists: run under the module's own configuration only (modules that are
+    /// expensive because they document a known finding)
+    pub only_own: bool,
 }
 
 pub fn opt_sets(m: &Module) -> Vec<(String, String)> {
@@ -26,6 +29,9 @@ pub fn opt_sets(m: &Module) -> Vec<(String, String)> {
         }
     });
     v.push(("own".into(), own));
+    if m.only_own {
+        return v;
+    }
     v.push(("default".into(), "{}".into()));
     v.push((
         "all".into(),
@@ -102,7 +108,7 @@ pub fn discover(workload_dir: &str) -> Vec<Module> {
             let Ok(src) = std::fs::read_to_string(&p) else { continue };
             let own = std::fs::read_to_string(p.with_file_name("config.json")).ok();
             let rel = p.strip_prefix(FIXTURE_DIR).unwrap().to_string_lossy().to_string();
-            mods.push(Module { name: format!("fixture/{rel}"), src, ts: fname.ends_with(".tsx"), own });
+            mods.push(Module { name: format!("fixture/{rel}"), src, ts: fname.ends_with(".tsx"), own, only_own: false });
         }
     }
     // W2
@@ -114,7 +120,8 @@ pub fn discover(workload_dir: &str) -> Vec<Module> {
             let src = std::fs::read_to_string(&p).expect("workload file readable");
             let own = std::fs::read_to_string(p.with_extension("json")).ok();
             let rel = p.strip_prefix(workload_dir).unwrap().to_string_lossy().to_string();
-            mods.push(Module { name: format!("w2/{rel}"), src, ts: ext == "tsx", own });
+            let only_own = p.with_extension("only-own").exists();
+            mods.push(Module { name: format!("w2/{rel}"), src, ts: ext == "tsx", own, only_own });
         }
     }
     mods
